@@ -181,6 +181,22 @@ func c05Bulk(tier string, seed int64, idx int, scratch string) rt.CaseResult {
 			return c
 		}
 	}
+	if mode == dbx.Inline {
+		// a context that bounds the opening only (done by the time the records are read): the
+		// database opens with everything that was committed, or says that it cannot
+		env.Opt.InlineCtxDone = true
+		err := env.Reopen()
+		env.Opt.InlineCtxDone = false
+		if err != nil {
+			c.Count("opens_with_done_context_refused", 1)
+			if err := env.Reopen(); err != nil {
+				c.Violate("reopen-failed role=bulk", err.Error(), replay)
+				return c
+			}
+		} else if !verify("after a reopen with a context that is already done") {
+			return c
+		}
+	}
 	c.AddDistinct(fmt.Sprintf("bulk/%s/%d", modeName(mode), n/1000*1000))
 	if idx == 0 {
 		c.Sample = map[string]any{"keys": n, "mode": modeName(mode)}
